@@ -858,9 +858,13 @@ theorem afterPE_ctl (c : Cfg) (s g : St) (ho : g.outer = s.outer) (hi : g.inner 
       · exact ret_ctl s g _ ho
       · split
         · split
-          · split <;> exact ret_ctl s _ _ ho
+          · split
+            · exact ret_ctl s _ _ ho
+            · exact Or.inr (Or.inl ⟨ho, hi⟩)
           · exact ret_ctl s _ _ ho
-        · split <;> exact ret_ctl s _ _ ho
+        · split
+          · exact ret_ctl s _ _ ho
+          · exact Or.inr (Or.inl ⟨ho, hi⟩)
     · have hr : g.upstreamReset = false := by simpa using hr
       by_cases hd : g.direct = true
       · rw [afterPE_direct c g hc hr hd]
